@@ -3,7 +3,8 @@ import subprocess
 
 from . import sx
 
-DRIVER = '/verif/ocaml/driver'
+import os
+DRIVER = os.environ.get('VERIF_ROOT', '/verif') + '/ocaml/driver'
 
 
 class ModelError(Exception):
